@@ -2,6 +2,7 @@ import JobShopModel.Staged
 import JobShopModel.Rules
 import JobShopModel.Equality
 import JobShopModel.Views
+import JobShopModel.Features
 /-!
 # Line-protocol driver for the executable model
 
@@ -395,19 +396,111 @@ def step (w : World) (line : String) : World × String :=
   | [] => (w, "")
   | _ => (w, "bad-op")
 
-partial def loop (h : IO.FS.Stream) (out : IO.FS.Stream) (w : World) : IO Unit := do
+/-! ## the feature world -/
+
+structure DW where
+  w : World
+  fw : FWorld
+
+def emptyDW : DW := { w := emptyWorld, fw := FWorld.init { I := [] } }
+
+def parseFKind : String → Option FKind
+  | "is_ready" => some .isReady
+  | "earliest_start_time" => some .earliestStart
+  | "duration" => some .duration
+  | "is_scheduled" => some .isScheduled
+  | "position_in_job" => some .positionInJob
+  | "remaining_operations" => some .remainingOps
+  | "is_completed" => some .isCompleted
+  | "unscheduled" => some .unscheduled
+  | "history" => some .history
+  | "makespan_reward" => some .makespanReward
+  | "idle_reward" => some .idleReward
+  | _ => none
+
+def fkindName : FKind → String
+  | .isReady => "is_ready" | .earliestStart => "earliest_start_time" | .duration => "duration"
+  | .isScheduled => "is_scheduled" | .positionInJob => "position_in_job" | .remainingOps => "remaining_operations"
+  | .isCompleted => "is_completed" | .composite => "composite" | .unscheduled => "unscheduled"
+  | .history => "history" | .makespanReward => "makespan_reward" | .idleReward => "idle_reward"
+
+def parseFts (t : String) : Option (Option (List FT)) :=
+  if t == "-" then some none else
+  (t.toList.mapM fun c => match c with
+    | 'o' => some FT.operations | 'm' => some FT.machines | 'j' => some FT.jobs | _ => none).map some
+
+def ftName : FT → String
+  | .operations => "o" | .machines => "m" | .jobs => "j"
+
+def fmtFObs (I : Instance) (id : Nat) (o : FObs) : String :=
+  let cols := " ".intercalate (o.cols.map fun (ft, cs) =>
+    ftName ft ++ "=" ++ ";".intercalate (cs.map fun c => ",".intercalate (c.map toString)))
+  match o.kind with
+  | .unscheduled => s!"{id}:unscheduled " ++ " ".intercalate (o.deques.map fun d => lst (fmtRefs I d))
+  | .history => s!"{id}:history " ++ " ".intercalate (o.hist.map (fmtSOp I))
+  | .makespanReward => s!"{id}:makespan_reward {fmtInts o.rewards} cur {o.curMakespan}"
+  | .idleReward => s!"{id}:idle_reward {fmtInts o.rewards}"
+  | .composite => s!"{id}:composite({fmtNats o.parts}) {cols}"
+  | k => s!"{id}:{fkindName k} {cols}"
+
+def fworldSnapshot (w : FWorld) : String :=
+  let obs := (List.range w.heap.length).map fun id => match w.heap[id]? with
+    | some o => fmtFObs w.cfg.I id o
+    | none => ""
+  s!"subs {fmtNats w.subs} || " ++ " || ".intercalate obs
+
+def stepAll (d : DW) (line : String) : DW × String :=
+  match toks line with
+  | "inst" :: _ =>
+    let (w', out) := step d.w line
+    ({ w := w', fw := FWorld.init w'.cfg }, out)
+  | "filter" :: _ =>
+    let (w', out) := step d.w line
+    ({ w := w', fw := { d.fw with cfg := w'.cfg } }, out)
+  | ["disp", j, p, m] =>
+    let (w', out) := step d.w line
+    match j.toNat?, p.toNat? with
+    | some j, some p =>
+      let mm : Option (Option Int) := if m == "none" then some none else m.toInt?.map some
+      (match mm with
+       | some mo => ({ w := w', fw := (d.fw.dispatch j p mo).1 }, out)
+       | none => ({ d with w := w' }, out))
+    | _, _ => ({ d with w := w' }, out)
+  | ["reset"] =>
+    let (w', out) := step d.w line
+    ({ w := w', fw := d.fw.reset }, out)
+  | ["fobs", k, fts] =>
+    match parseFKind k, parseFts fts with
+    | some kind, some f =>
+      (match d.fw.construct kind f with
+       | (fw', some id) => ({ d with fw := fw' }, toString id)
+       | (fw', none) => ({ d with fw := fw' }, "raise"))
+    | _, _ => (d, "bad-op")
+  | "fcomp" :: rest =>
+    let parts : Option (Option (List Nat)) := if rest == ["all"] then some none else (nats? rest).map some
+    (match parts with
+     | some ps => (match d.fw.constructComposite ps with
+        | (fw', some id) => ({ d with fw := fw' }, toString id)
+        | (fw', none) => ({ d with fw := fw' }, "raise"))
+     | none => (d, "bad-op"))
+  | ["fsnap"] => (d, fworldSnapshot d.fw)
+  | _ =>
+    let (w', out) := step d.w line
+    ({ d with w := w' }, out)
+
+partial def loop (h : IO.FS.Stream) (out : IO.FS.Stream) (d : DW) : IO Unit := do
   let line ← h.getLine
   if line.isEmpty then return ()
   let l := line.trimAscii.toString
   if l == "new" then
     out.putStrLn "ok"
-    loop h out emptyWorld
+    loop h out emptyDW
   else
-    let (w', o) := step w l
+    let (d', o) := stepAll d l
     out.putStrLn o
-    loop h out w'
+    loop h out d'
 
 def main : IO Unit := do
   let stdin ← IO.getStdin
   let stdout ← IO.getStdout
-  loop stdin stdout emptyWorld
+  loop stdin stdout emptyDW
